@@ -4,3 +4,6 @@ import check_pipeline
 CHECKS = {}
 for _p in check_pipeline.PROPS:
     CHECKS[_p] = check_pipeline.run
+
+import check_cell
+CHECKS["C09"] = check_cell.run
